@@ -443,7 +443,7 @@ impl<'a> VisitMut for HofPass<'a> {
                             let v = quote::format_ident!("__fjx_v{}", self.counter);
                             let er = quote::format_ident!("__fjx_e{}", self.counter);
                             let new: Expr = parse_quote! {
-                                match #recv {
+                                match (#recv) {
                                     Ok(#v) => #v,
                                     Err(#er) => { { let #pat = &#er; #body; } return Err(#er.into()); }
                                 }
@@ -468,7 +468,7 @@ impl<'a> VisitMut for HofPass<'a> {
                             let v = quote::format_ident!("__fjx_v{}", self.counter);
                             let er = quote::format_ident!("__fjx_e{}", self.counter);
                             let new: Expr = parse_quote! {
-                                match #recv {
+                                match (#recv) {
                                     Ok(#v) => #v,
                                     Err(#er) => { let #pat = #er; return Err((#body).into()); }
                                 }
@@ -490,9 +490,9 @@ impl<'a> VisitMut for HofPass<'a> {
             let v = quote::format_ident!("__fjx_v{}", self.counter);
             let er = quote::format_ident!("__fjx_e{}", self.counter);
             let new: Expr = if self.ret_is_option {
-                parse_quote! { match #inner { Some(#v) => #v, None => return None } }
+                parse_quote! { match (#inner) { Some(#v) => #v, None => return None } }
             } else {
-                parse_quote! { match #inner { Ok(#v) => #v, Err(#er) => return Err(From::from(#er)) } }
+                parse_quote! { match (#inner) { Ok(#v) => #v, Err(#er) => return Err(From::from(#er)) } }
             };
             *e = new;
             self.log.push("R-TRY `?` desugared".into());
@@ -586,6 +586,7 @@ impl<'a> VisitMut for WorldPass<'a> {
 
 struct LoopMarker {
     n: usize,
+    with_binder: Vec<usize>,
 }
 impl VisitMut for LoopMarker {
     fn visit_expr_mut(&mut self, e: &mut Expr) {
@@ -595,6 +596,10 @@ impl VisitMut for LoopMarker {
             Expr::ForLoop(f) => {
                 self.n += 1;
                 f.body.stmts.insert(0, parse_quote! { __fjx_loop!(#id); });
+                if self.with_binder.contains(&n) {
+                    let e = &f.expr;
+                    f.expr = Box::new(parse_quote! { __fjx_iter!(#e) });
+                }
             }
             Expr::While(f) => {
                 self.n += 1;
@@ -790,6 +795,9 @@ struct ExtractSpec {
     proofs: Vec<(String, bool, Vec<String>)>,
     line: usize,
     spec_only: bool,
+    iter_params: Vec<String>,
+    contract_file: Option<String>,
+    iter_args: Vec<(String, usize)>,
 }
 
 struct Unit {
@@ -797,6 +805,7 @@ struct Unit {
     contracts: PathBuf,
     paths: Vec<(Vec<String>, Vec<String>)>,
     world_pats: Vec<String>,
+    broadcast: String,
     files: BTreeMap<String, (String, syn::File)>,
     out: String,
     report: Vec<String>,
@@ -957,6 +966,96 @@ impl Unit {
             _ => false,
         };
         HofPass { log: &mut log, counter: 0, ret_is_option, closure_depth: 0 }.visit_block_mut(&mut block);
+        // R-ITER: `p: impl Iterator<Item = &'a T>` -> `p: &'a [T]`, `for x in p` -> `for x in p.iter()`
+        for pname in &spec.iter_params {
+            self.check_iter_call_sites(&spec.name);
+            let mut done = false;
+            for inp in sig.inputs.iter_mut() {
+                if let syn::FnArg::Typed(pt) = inp {
+                    if tok(&pt.pat) == *pname {
+                        let mut new_ty: Option<syn::Type> = None;
+                        if let syn::Type::ImplTrait(it) = &*pt.ty {
+                            if let Some(syn::TypeParamBound::Trait(tb)) = it.bounds.first() {
+                                if let Some(seg) = tb.path.segments.last() {
+                                    if seg.ident == "Iterator" {
+                                        if let syn::PathArguments::AngleBracketed(ab) = &seg.arguments {
+                                            for ga in &ab.args {
+                                                if let syn::GenericArgument::AssocType(at) = ga {
+                                                    if at.ident == "Item" {
+                                                        if let syn::Type::Reference(r) = &at.ty {
+                                                            let elem = &r.elem;
+                                                            new_ty = Some(match &r.lifetime {
+                                                                Some(l) => parse_quote! { &#l [#elem] },
+                                                                None => parse_quote! { &[#elem] },
+                                                            });
+                                                        }
+                                                    }
+                                                }
+                                            }
+                                        }
+                                    }
+                                }
+                            }
+                        }
+                        if let Some(t) = new_ty {
+                            pt.ty = Box::new(t);
+                            done = true;
+                        }
+                    }
+                }
+            }
+            if !done {
+                die(&format!("lost anchor: R-ITER parameter `{pname}` of {} is not `impl Iterator<Item = &T>`", spec.name));
+            }
+            struct ForIter<'a> {
+                name: &'a str,
+                n: usize,
+            }
+            impl<'a> VisitMut for ForIter<'a> {
+                fn visit_expr_for_loop_mut(&mut self, f: &mut syn::ExprForLoop) {
+                    if tok(&f.expr) == self.name {
+                        let e = &f.expr;
+                        f.expr = Box::new(parse_quote! { #e.iter() });
+                        self.n += 1;
+                    }
+                    visit_mut::visit_expr_for_loop_mut(self, f);
+                }
+            }
+            let mut fi = ForIter { name: pname, n: 0 };
+            fi.visit_block_mut(&mut block);
+            if fi.n != 1 {
+                die(&format!("lost anchor: R-ITER expects exactly one `for _ in {pname}` in {}", spec.name));
+            }
+            log.push(format!("R-ITER parameter `{pname}`: impl Iterator<Item=&T> narrowed to &[T] (every call site passes <vec>.iter())"));
+        }
+        // R-ITER at call sites: `callee(.., X.iter(), ..)` -> `callee(.., X.as_slice(), ..)`
+        if !spec.iter_args.is_empty() {
+            struct IterArg<'a> {
+                table: &'a [(String, usize)],
+                log: &'a mut Vec<String>,
+            }
+            impl<'a> VisitMut for IterArg<'a> {
+                fn visit_expr_method_call_mut(&mut self, mc: &mut syn::ExprMethodCall) {
+                    visit_mut::visit_expr_method_call_mut(self, mc);
+                    for (m, k) in self.table {
+                        if mc.method == m.as_str() {
+                            if let Some(arg) = mc.args.iter_mut().nth(*k) {
+                                if let Expr::MethodCall(inner) = arg {
+                                    if inner.method == "iter" && inner.args.is_empty() {
+                                        let r = &inner.receiver;
+                                        *arg = parse_quote! { #r.as_slice() };
+                                        self.log.push(format!("R-ITER call site .{m}(..): X.iter() -> X.as_slice()"));
+                                        continue;
+                                    }
+                                }
+                                die(&format!("lost anchor: R-ITER call site .{m}: argument {k} is not `<e>.iter()`"));
+                            }
+                        }
+                    }
+                }
+            }
+            IterArg { table: &spec.iter_args, log: &mut log }.visit_block_mut(&mut block);
+        }
         // R-TRAIT: Self::Assoc -> definition when a trait method is emitted as an inherent method
         if spec.inherent && !found.assoc_types.is_empty() {
             struct Assoc<'a> {
@@ -1012,8 +1111,12 @@ impl Unit {
             }
         }
 
+        if spec.spec_only {
+            block = parse_quote! { { unimplemented!() } };
+            log.push("SPEC-ONLY: body not verified here (declaration with the contract proved in another unit)".into());
+        }
         // markers
-        let mut lm = LoopMarker { n: 0 };
+        let mut lm = LoopMarker { n: 0, with_binder: spec.loops.keys().cloned().collect() };
         lm.visit_block_mut(&mut block);
         let n_loops = lm.n;
         for k in spec.loops.keys() {
@@ -1038,7 +1141,11 @@ impl Unit {
         block.stmts.insert(0, parse_quote! { __fjx_contract!(); });
 
         let vis = &found.vis;
-        let fn_ts = quote! { #vis #sig #block };
+        let fn_ts = if spec.spec_only {
+            quote! { #[verifier::external_body] #vis #sig #block }
+        } else {
+            quote! { #vis #sig #block }
+        };
         let (wrapped, wrapper_open): (String, bool) = match &found.impl_header {
             None => (fn_ts.to_string(), false),
             Some((generics, tr, ty)) => {
@@ -1089,16 +1196,16 @@ impl Unit {
                 die(&format!("internal: return marker lost in\n{text}"));
             }
         }
-        let splice_before_brace = |text: &mut String, marker: &str, lines: &[String]| {
+        let splice_before_brace = |text: &mut String, marker: &str, lines: &[String], repl: &str| {
             let pos = text.find(marker).unwrap_or_else(|| die(&format!("internal: marker {marker} lost")));
             // remove marker (and the rest of its line)
             let line_start = text[..pos].rfind('\n').map(|p| p + 1).unwrap_or(0);
             let line_end = text[pos..].find('\n').map(|p| pos + p + 1).unwrap_or(text.len());
             let only_marker = text[line_start..line_end].trim() == marker;
-            if only_marker {
+            if only_marker && repl.is_empty() {
                 text.replace_range(line_start..line_end, "");
             } else {
-                text.replace_range(pos..pos + marker.len(), "");
+                text.replace_range(pos..pos + marker.len(), repl);
             }
             let brace = text[..line_start.min(text.len())].rfind('{').unwrap_or_else(|| die("internal: brace lost"));
             if !lines.is_empty() {
@@ -1106,21 +1213,35 @@ impl Unit {
                 text.insert_str(brace, &ins);
             }
         };
-        splice_before_brace(&mut text, "__fjx_contract!();", &spec.contract);
+        // ghost binder for `for` loops under contract: `for x in E` -> `for x in it: E`
+        while let Some(pos) = text.find("__fjx_iter!(") {
+            let start = pos + "__fjx_iter!(".len();
+            let bytes = text.as_bytes();
+            let mut depth = 1;
+            let mut i = start;
+            while i < bytes.len() && depth > 0 {
+                match bytes[i] {
+                    b'(' => depth += 1,
+                    b')' => depth -= 1,
+                    _ => {}
+                }
+                i += 1;
+            }
+            let inner = text[start..i - 1].to_string();
+            text.replace_range(pos..i, &format!("it: {}", inner));
+        }
+        let bu = if self.broadcast.is_empty() || spec.spec_only { String::new() } else { format!("broadcast use {};", self.broadcast) };
+        splice_before_brace(&mut text, "__fjx_contract!();", &spec.contract, &bu);
         for n in 0..n_loops {
             let marker = format!("__fjx_loop!({n});");
             let empty = vec![];
             let lines = spec.loops.get(&n).unwrap_or(&empty);
-            splice_before_brace(&mut text, &marker, lines);
+            splice_before_brace(&mut text, &marker, lines, "");
         }
         for (i, (_, _, lines)) in spec.proofs.iter().enumerate() {
             let marker = format!("__fjx_proof!({i});");
             let pos = text.find(&marker).unwrap_or_else(|| die("internal: proof marker lost"));
             text.replace_range(pos..pos + marker.len(), &lines.join("\n"));
-        }
-        if spec.spec_only {
-            // declaration only: body replaced, contract kept (used when another unit proves the body)
-            die("spec_only not implemented");
         }
 
         let begin_line = self.out.lines().count() + 2;
@@ -1143,7 +1264,7 @@ impl Unit {
 
         self.n_extracted += 1;
         self.report.push(format!(
-            "{{\"kind\":\"fn\",\"file\":{},\"impl\":{},\"fn\":{},\"emitted_as\":{},\"props\":{},\"src_lines\":[{},{}],\"gen_lines\":[{},{}],\"src_text\":{},\"rules\":{},\"tokens_src\":{},\"tokens_deleted\":{},\"tokens_inserted\":{},\"deleted\":{},\"inserted\":{},\"loops\":{},\"world\":{}}}",
+            "{{\"kind\":\"fn\",\"file\":{},\"impl\":{},\"fn\":{},\"emitted_as\":{},\"props\":{},\"src_lines\":[{},{}],\"gen_lines\":[{},{}],\"src_text\":{},\"rules\":{},\"tokens_src\":{},\"tokens_deleted\":{},\"tokens_inserted\":{},\"deleted\":{},\"inserted\":{},\"loops\":{},\"world\":{},\"spec_only\":{},\"contract_file\":{}}}",
             jstr(&spec.file),
             jstr(spec.impl_key.as_deref().unwrap_or("")),
             jstr(&spec.name),
@@ -1161,8 +1282,56 @@ impl Unit {
             jlist(&del),
             jlist(&ins),
             n_loops,
-            spec.world
+            spec.world,
+            spec.spec_only,
+            jstr(spec.contract_file.as_deref().unwrap_or(""))
         ));
+    }
+
+    /// every call `.name(first_arg, ..)` in the crate (tests included) must pass `<e>.iter()` as first argument
+    fn check_iter_call_sites(&mut self, name: &str) {
+        fn walk(dir: &Path, out: &mut Vec<PathBuf>) {
+            if let Ok(rd) = std::fs::read_dir(dir) {
+                for e in rd.flatten() {
+                    let p = e.path();
+                    if p.is_dir() {
+                        walk(&p, out);
+                    } else if p.extension().map(|x| x == "rs").unwrap_or(false) {
+                        out.push(p);
+                    }
+                }
+            }
+        }
+        let mut files = vec![];
+        walk(&self.repo.join("src"), &mut files);
+        struct V<'a> {
+            name: &'a str,
+            bad: Vec<String>,
+            n: usize,
+        }
+        impl<'a, 'ast> syn::visit::Visit<'ast> for V<'a> {
+            fn visit_expr_method_call(&mut self, mc: &'ast syn::ExprMethodCall) {
+                if mc.method == self.name {
+                    self.n += 1;
+                    let ok = matches!(mc.args.first(), Some(Expr::MethodCall(i)) if i.method == "iter" && i.args.is_empty());
+                    if !ok {
+                        self.bad.push(tok(mc));
+                    }
+                }
+                syn::visit::visit_expr_method_call(self, mc);
+            }
+        }
+        let mut v = V { name, bad: vec![], n: 0 };
+        for f in files {
+            if let Ok(src) = std::fs::read_to_string(&f) {
+                if let Ok(parsed) = syn::parse_file(&src) {
+                    syn::visit::Visit::visit_file(&mut v, &parsed);
+                }
+            }
+        }
+        if !v.bad.is_empty() {
+            die(&format!("unsupported construct: R-ITER needs every call site of `{name}` to pass `<e>.iter()`; found {}", v.bad[0]));
+        }
     }
 
     fn extract_type(&mut self, file: &str, name: &str, derives: &[String]) {
@@ -1210,6 +1379,18 @@ impl Unit {
                 _ => {}
             }
             log.push(format!("R-ATTR dropped {} attribute(s)", ap.dropped));
+            if let Item::Struct(st) = &mut it {
+                let mut n = 0;
+                for f in st.fields.iter_mut() {
+                    if !matches!(f.vis, syn::Visibility::Public(_)) {
+                        f.vis = parse_quote! { pub };
+                        n += 1;
+                    }
+                }
+                if n > 0 {
+                    log.push(format!("R-VIS {} field(s) made pub (needed so that contracts can name them; no runtime meaning)", n));
+                }
+            }
             if let Item::Const(c) = &mut it {
                 if let syn::Type::Reference(r) = &mut *c.ty {
                     if r.lifetime.is_none() {
@@ -1334,6 +1515,9 @@ impl Unit {
                         self.process(&p, depth + 1);
                         let _ = writeln!(self.out, "// ==== end include {} ====", rest);
                     }
+                    "broadcast" => {
+                        self.broadcast = rest.to_string();
+                    }
                     "canary" => {
                         self.out.push_str("// vacuity guard: this MUST fail (otherwise the prelude is inconsistent)\nproof fn fjx_canary() ensures false {}\n");
                     }
@@ -1412,6 +1596,8 @@ impl Unit {
                         for o in it {
                             if o == "world" {
                                 spec.world = true
+                            } else if o == "spec_only" {
+                                spec.spec_only = true
                             } else if o == "inherent" {
                                 spec.inherent = true
                             } else if o == "as_trait" {
@@ -1420,6 +1606,11 @@ impl Unit {
                                 spec.rename = Some(n.to_string())
                             } else if let Some(n) = o.strip_prefix("props=") {
                                 spec.props = n.split('+').map(|s| s.to_string()).collect()
+                            } else if let Some(n) = o.strip_prefix("iter_param=") {
+                                spec.iter_params.push(n.to_string())
+                            } else if let Some(n) = o.strip_prefix("iter_arg=") {
+                                let (m, k) = n.split_once(':').unwrap_or_else(|| die("bad iter_arg"));
+                                spec.iter_args.push((m.to_string(), k.parse().unwrap_or_else(|_| die("bad iter_arg index"))))
                             } else if let Some(n) = o.strip_prefix("ret=") {
                                 spec.ret = n.to_string()
                             } else {
@@ -1448,6 +1639,13 @@ impl Unit {
                                 match cmd {
                                     "end" => break,
                                     "contract" => sec = Sec::Contract,
+                                    "contract-file" => {
+                                        let p = self.contracts.join(rest);
+                                        let t = std::fs::read_to_string(&p).unwrap_or_else(|_| die(&format!("cannot read contract file {rest}")));
+                                        spec.contract.extend(t.lines().map(|l| l.to_string()));
+                                        spec.contract_file = Some(rest.to_string());
+                                        sec = Sec::Contract;
+                                    }
                                     "world" => spec.world_pats.extend(rest.split_whitespace().map(|s| s.to_string())),
                                     "loop" => {
                                         let n: usize = rest.parse().unwrap_or_else(|_| die("bad //@loop"));
@@ -1504,6 +1702,7 @@ fn main() {
         contracts: PathBuf::from(&args[2]),
         paths: vec![],
         world_pats: vec![],
+        broadcast: String::new(),
         files: BTreeMap::new(),
         out: String::new(),
         report: vec![],
